@@ -25,7 +25,7 @@ BINS = ["c09"]
 NEEDS_CICADA = True
 ALLOWED_AXIOMS = []
 PINNED = ["C09_full", "C09_refuted", "C09_partial", "C09_step", "C09_abs", "C09_pwd", "C09_full_after_repairs",
-          "C09_refuted_read_rejoined", "C09_read_repaired", "C09_nonvacuous"]
+          "C09_refuted_read_rejoined", "C09_read_repaired", "C09_read_remainder_verbatim", "C09_nonvacuous"]
 # Does /repo contain the proposed repair of `read` (notes/C09-fix-6.patch: split_into_fields_n)?  The model and the
 # specification of read are parametric in this flag (fx_read) and the theorems are proved for both settings; the
 # registered instance is the one that transcribes the code in /repo. When the repair is committed set this to "r"
@@ -57,7 +57,7 @@ VALUES = ["1", "2", "abc", "x y", "", "a=b", "p:q", "it's", 'say "hi"', " lead",
           "a b=c:d", "::", "k='v'", 'k="v"']
 IFS_VALUES = [":", ",", " ", ":,", "", "x"]
 LINES = ["x y z", "x:y z:w:v", "a", "", "p,q,r", "x:y,z", "  x   y ", "a b", "a:b", "one two three four", "u:v:w", "m, n",
-         "a\tb c", ":x:", "a,b c,d"]
+         "a\tb c", ":x:", "a,b c,d", "x  y", "x  y   z", "\tx \t y", "a:b::c", "::a", "a ,, b", "x y  "]
 
 
 def qstyle(v, rng):
